@@ -364,3 +364,24 @@ b
 {/template}
 ")) = Some (pit_DollarIdent, 5, 8).
 Proof. vm_compute. repeat split; reflexivity. Qed.
+
+(* With the scanner invariant of Proofs/LexerProofs.v (wt-lex: lex_items_pos_le): every item the
+   scanner sends lies inside the input, so `unexpected` about a scanner item never trips over
+   lineNumber's slice: it returns the error positioned at that item, whose line is inside the file. *)
+From Soy Require Import Proofs.LexerProofs.
+Open Scope N_scope.
+Theorem C19_unexpected_on_scanner_item :
+  forall ul ud, ul (-1)%Z = false -> ud (-1)%Z = false ->
+  forall fuel mode s ts, lex_items ul ud fuel mode s = Ok ts ->
+  forall t, In t ts ->
+    t_pos t <= N.of_nat (length s) /\ 1 <= line_at s (t_pos t) <= lines s /\
+    forall A ctx st, exists cls, @c_unexp (N.of_nat (length s)) A t ctx st = CErr t cls st.
+Proof.
+  intros ul ud Hl Hd fuel mode s ts Hlex t Hin.
+  pose proof (lex_items_pos_le ul ud Hl Hd fuel mode s ts Hlex) as Hall.
+  rewrite Forall_forall in Hall. specialize (Hall t Hin).
+  split; [exact Hall|]. split; [apply line_at_inside|].
+  intros A ctx st. destruct (unexpected_reports_its_token (N.of_nat (length s)) A t ctx st _ eq_refl) as [H _].
+  exact (H Hall).
+Qed.
+Print Assumptions C19_unexpected_on_scanner_item.
